@@ -550,3 +550,34 @@ Definition RequestConforms (sch : schema) (q : request) : Prop :=
               In (uty (rprincipal q)) (ai_principals ai) /\
               In (uty (rresource q)) (ai_resources ai)) /\
   ContextConforms sch (raction q) (rcontext q).
+
+(* ======================================================================================
+   Part 4: representation invariants of a resolved schema (hypotheses of the C11 theorems).
+   `Attributes` is a BTreeMap in Rust: the attribute list of every record type is duplicate-free
+   (at every nesting depth); every key of `s_actions` is an action uid (ValidatorSchema only
+   builds action ids whose type has the basename `Action`).  Together with Schema.schema_ok
+   (every declared type is one a schema can produce).  The check evaluates `schema_wf` on every
+   generated schema through the model driver (`(conform schema_wf <schema>)`). *)
+Fixpoint wf_ty (t : ty) : bool :=
+  match t with
+  | TSet (Some e) => wf_ty e
+  | TRecord attrs _ =>
+      keys_nodup attrs &&
+      (fix go (l : attrs_ty) : bool :=
+         match l with
+         | [] => true
+         | (_, (a, _)) :: l' => wf_ty a && go l'
+         end) attrs
+  | _ => true
+  end.
+
+Definition decl_ty_ok (t : ty) : bool := schema_ty t && wf_ty t.
+
+Definition etype_info_wf (i : etype_info) : bool :=
+  forallb (fun e : str * (ty * bool) => decl_ty_ok (fst (snd e))) (et_attrs i) &&
+  match et_tags i with Some t => decl_ty_ok t | None => true end.
+
+Definition schema_wf (sch : schema) : bool :=
+  forallb (fun ni : etype * etype_info => etype_info_wf (snd ni)) (s_etypes sch) &&
+  forallb (fun ui : uid * action_info =>
+             decl_ty_ok (ai_context (snd ui)) && is_action_type (uty (fst ui))) (s_actions sch).
